@@ -761,6 +761,9 @@ def call(f, *args, **kw):
             raise Unsupported("un-instrumented function %s.%s called with symbolic arguments" % (f.__module__, f.__qualname__))
         return f(*args, **kw)
     if tf is types.MethodType:
+        if isinstance(f.__self__, _REAL_UTF8_INCDEC):
+            # a real decoder object created while the engine was off (import / __init__ time) and shared between calls
+            return getattr(_shadow(f.__self__), f.__name__)(*args, **kw)
         fn = f.__func__
         if isinstance(fn, types.FunctionType) and (INSTR_TAG in fn.__globals__ or fn.__module__.startswith("sx.")):
             return f(*args, **kw)
@@ -772,6 +775,7 @@ def call(f, *args, **kw):
         return f(*args, **kw)
     if f is _REAL_UTF8_INCDEC:
         return SymUtf8Decoder(*args, **kw)
+
     if _dunder(f, "__call__") is not None:
         return f(*args, **kw)
     m = BUILTIN_MODELS.get(f) if tf in (type, types.BuiltinFunctionType) else None
@@ -838,6 +842,22 @@ def call(f, *args, **kw):
 
 
 LRU_HOOK = [None]
+
+
+def _shadow(dec):
+    """per-path model state of a long-lived real decoder object (its own state is whatever it was at load time)"""
+    sh = E.shadows.get(id(dec))
+    if sh is None:
+        sh = SymUtf8Decoder()
+        sh.buffer = SBytes(tuple(dec.buffer))
+        E.shadows[id(dec)] = sh
+    return sh
+
+
+def attr(obj, name):
+    if E.active and isinstance(obj, _REAL_UTF8_INCDEC):
+        return getattr(_shadow(obj), name)
+    return getattr(obj, name)
 
 
 def _is_instr_class(c):
